@@ -29,8 +29,8 @@ OPS = ['create', 'create_key_pair', 'register', 'rekey', 'derive_key',
        'activate', 'revoke', 'destroy', 'encrypt', 'decrypt', 'sign',
        'signature_verify', 'mac', 'set_attribute', 'modify_attribute',
        'delete_attribute', 'proxy_query', 'proxy_discover_versions',
-       'proxy_check']
-RULE = ('plan = client operation (21) x KMIP version (6) x scripted response '
+       'proxy_check', 'proxy_create_key_pair', 'proxy_rekey_key_pair']
+RULE = ('plan = client operation (26: every ProxyKmipClient method, and KMIPProxy query, discover_versions, check, create_key_pair, rekey_key_pair whose result objects carry more than the pie client passes on) x KMIP version (6) x scripted response '
         '(success with seeded payload values incl. all seven object types '
         'for get; or failure with a seeded reason of the full reason table '
         'and a message that may be empty or non-ASCII) x transport plan: '
@@ -118,6 +118,21 @@ def gen_response(r, op, ver, rich=False):
     p = {'uid': gen_uid(r)}
     if op == 'create_key_pair':
         p['pub'] = gen_uid(r)
+    elif op in ('proxy_create_key_pair', 'proxy_rekey_key_pair'):
+        # the result objects of KMIPProxy carry both identifiers and, below
+        # KMIP 2.0, the template attributes the server applied to each key
+        p['pub'] = gen_uid(r)
+        while p['pub'] == p['uid']:
+            p['pub'] = gen_uid(r)
+        if ver < (2, 0):
+            if rich or r.random() < 0.6:
+                p['priv_attrs'] = [
+                    A('Name', ['priv-%d' % r.randrange(99), 1], 0),
+                    A('Cryptographic Usage Mask', 1)][:r.choice([1, 2])]
+            if rich or r.random() < 0.6:
+                p['pub_attrs'] = [
+                    A('Name', ['pub-%d' % r.randrange(99), 1], 0),
+                    A('Cryptographic Usage Mask', 2)][:r.choice([1, 2])]
     elif op == 'locate':
         p['uids'] = [gen_uid(r) for _ in range(r.choice([0, 1, 2, 5]))]
     elif op == 'get':
@@ -196,7 +211,8 @@ OPNUM = {'create': 1, 'create_key_pair': 2, 'register': 3, 'rekey': 4,
          'revoke': 19, 'destroy': 20, 'encrypt': 31, 'decrypt': 32,
          'sign': 33, 'signature_verify': 34, 'mac': 35, 'set_attribute': 49,
          'modify_attribute': 14, 'delete_attribute': 15, 'proxy_query': 24,
-         'proxy_discover_versions': 30, 'proxy_check': 9}
+         'proxy_discover_versions': 30, 'proxy_check': 9,
+         'proxy_create_key_pair': 2, 'proxy_rekey_key_pair': 0x1D}
 MIN_VER = {'proxy_discover_versions': (1, 1), 'encrypt': (1, 2), 'decrypt': (1, 2), 'sign': (1, 2),
            'signature_verify': (1, 2), 'mac': (1, 2),
            'set_attribute': (2, 0)}
@@ -210,6 +226,16 @@ def payload_nodes(op, p, ver):
     if op == 'create_key_pair':
         return [T(TAG['PRIVATE_KEY_UNIQUE_IDENTIFIER'], p['uid']),
                 T(TAG['PUBLIC_KEY_UNIQUE_IDENTIFIER'], p['pub'])]
+    if op in ('proxy_create_key_pair', 'proxy_rekey_key_pair'):
+        out = [T(TAG['PRIVATE_KEY_UNIQUE_IDENTIFIER'], p['uid']),
+               T(TAG['PUBLIC_KEY_UNIQUE_IDENTIFIER'], p['pub'])]
+        if not v2 and p.get('priv_attrs'):
+            out.append(S(TAG['PRIVATE_KEY_TEMPLATE_ATTRIBUTE'],
+                         *[reqs.attr_v1(a) for a in p['priv_attrs']]))
+        if not v2 and p.get('pub_attrs'):
+            out.append(S(TAG['PUBLIC_KEY_TEMPLATE_ATTRIBUTE'],
+                         *[reqs.attr_v1(a) for a in p['pub_attrs']]))
+        return out
     if op in ('check', 'proxy_check'):
         out = [U(p['uid'])]
         if p.get('limit') is not None:
@@ -446,6 +472,14 @@ def invoke(c, op, ver, r_args):
                                d.get('result_reason'),
                                d.get('result_message'))
         return d
+    if op == 'proxy_create_key_pair':
+        return proxy_result(c.proxy.create_key_pair())
+    if op == 'proxy_rekey_key_pair':
+        from kmip.core import attributes as cattr
+        return proxy_result(c.proxy.rekey_key_pair(
+            private_key_uuid=None if uid is None else
+            cattr.PrivateKeyUniqueIdentifier(uid),
+            offset=None))
     if op == 'proxy_query':
         return proxy_result(c.proxy.query(query_functions=[
             enums.QueryFunction.QUERY_OPERATIONS,
@@ -513,6 +547,12 @@ def project(op, ver, res):
             m = mv
         return [res.get('unique_identifier'),
                 res.get('usage_limits_count'), m, res.get('lease_time')]
+    if op in ('proxy_create_key_pair', 'proxy_rekey_key_pair'):
+        ev = lambda x: getattr(x, 'value', x)
+        ta = lambda x: None if x is None else c05.attrs_plain(x.attributes)
+        return [ev(res.private_key_uuid), ev(res.public_key_uuid),
+                ta(res.private_key_template_attribute),
+                ta(res.public_key_template_attribute)]
     if op == 'proxy_query':
         ops = [getattr(getattr(o, 'value', o), 'value',
                        getattr(o, 'value', o)) for o in res.operations or []]
@@ -554,6 +594,16 @@ def project(op, ver, res):
 def expected(op, ver, p):
     if op == 'proxy_check':
         return [p['uid'], p.get('limit'), p.get('mask'), p.get('lease')]
+    if op in ('proxy_create_key_pair', 'proxy_rekey_key_pair'):
+        def ta(attrs):
+            if not attrs or ver >= (2, 0):
+                return None
+            return sorted([[a['n'], a.get('i') or 0,
+                            list(a['v']) if isinstance(a['v'], (list, tuple))
+                            else a['v']] for a in attrs],
+                          key=lambda x: (x[0], x[1]))
+        return [p['uid'], p['pub'], ta(p.get('priv_attrs')),
+                ta(p.get('pub_attrs'))]
     if op == 'proxy_query':
         return [list(p['operations']), p.get('vendor')]
     if op == 'proxy_discover_versions':
